@@ -105,7 +105,7 @@ Record facts := mkFacts {
   f_slice : slice_cfg; f_element_at : shift_cfg; f_try_element_at : shift_cfg; f_getitem : shift_cfg;
   f_array_min_idx : Z; f_array_max_idx : Z; f_pos : pos_cfg; f_fact : fact_cfg; f_rint : rint_cfg; f_dow : Z;
   f_overlay : overlay_cfg; f_overlap : overlap_cfg; f_union : union_cfg; f_remove : cmpop; f_nanvl : nanvl_cfg;
-  f_seq_default : Z; f_date_add : dshift_cfg; f_date_sub : dshift_cfg; f_lev : lev_cfg; f_unix_millis : Z }.
+  f_seq_default : seq_default; f_date_add : dshift_cfg; f_date_sub : dshift_cfg; f_lev : lev_cfg; f_unix_millis : millis_cfg }.
 
 Definition duck_of (F : facts) (i : ein) : rv :=
   match i with
@@ -159,24 +159,29 @@ Definition spark_of (i : ein) : rv :=
 Definition in_dom (F : facts) (i : ein) : bool :=
   match i with
   | ISlice l s n => slice_cfg_ok (f_slice F) && (1 <=? s) && (0 <=? n)
-  | IElementAt l e => element_at_cfg_ok (f_element_at F) && simple e && negb (ieval e =? 0)
-  | ITryElementAt l e => element_at_cfg_ok (f_try_element_at F) && simple e && negb (ieval e =? 0)
+  | IElementAt l e =>
+      negb (ieval e =? 0) && (element_at_cfg_exact (f_element_at F) || (element_at_cfg_good (f_element_at F) && simple e))
+  | ITryElementAt l e =>
+      negb (ieval e =? 0) && (element_at_cfg_exact (f_try_element_at F) || (element_at_cfg_good (f_try_element_at F) && simple e))
   | IGetItem l e => getitem_cfg_ok (f_getitem F) (f_element_at F) && is_lit e && (0 <=? ieval e)
-  | IArrayMin l => element_at_cfg_ok (f_element_at F) && (f_array_min_idx F =? 1) && negb (match l with [] => true | _ => false end)
-  | IArrayMax l => element_at_cfg_ok (f_element_at F) && (f_array_max_idx F =? -1) && negb (match l with [] => true | _ => false end)
-  | IArrayPosition l v => pos_cfg_ok (f_pos F) && match l with Some _ => true | None => false end
+  | IArrayMin l => element_at_cfg_good (f_element_at F) && (f_array_min_idx F =? 1) && negb (match l with [] => true | _ => false end)
+  | IArrayMax l => element_at_cfg_good (f_element_at F) && (f_array_max_idx F =? -1) && negb (match l with [] => true | _ => false end)
+  | IArrayPosition l v => pos_cfg_exact (f_pos F) || (pos_cfg_ok (f_pos F) && match l with Some _ => true | None => false end)
   | IFactorial n => fact_cfg_ok (f_fact F) && (0 <=? n) && (n <=? 20)
-  | IRint n d => rint_cfg_ok (f_rint F) && (0 <? d) && negb (is_tie n d)
+  | IRint n d => (0 <? d) && (rint_cfg_exact (f_rint F) || (rint_cfg_ok (f_rint F) && negb (is_tie n d)))
   | IDayOfWeek _ => f_dow F =? 1
   | IOverlay s r pos len => overlay_cfg_ok (f_overlay F) && (1 <=? pos) && (0 <=? len)
   | IArraysOverlap _ _ => overlap_cfg_ok (f_overlap F)
   | IArrayUnion _ _ => union_cfg_ok (f_union F)
   | IArrayRemove l v => cmpop_eqb (f_remove F) CNe && no_nulls l
-  | INanvl a b => nanvl_cfg_ok (f_nanvl F) && match a with Some _ => true | None => false end
-  | ISequence a b st => (f_seq_default F =? 1) && match st with Some _ => true | None => a <=? b end
+  | INanvl a b => nanvl_cfg_exact (f_nanvl F) || (nanvl_cfg_ok (f_nanvl F) && match a with Some _ => true | None => false end)
+  | ISequence a b st =>
+      seq_cfg_exact (f_seq_default F) || (seq_cfg_ok (f_seq_default F) && match st with Some _ => true | None => a <=? b end)
   | IDateAdd _ _ | IDateSub _ _ => dshift_cfg_ok (f_date_add F) && dshift_cfg_ok (f_date_sub F)
-  | ILevenshtein dist _ => lev_cfg_ok (f_lev F) && match dist with Some _ => true | None => false end
-  | IUnixMillis us => (f_unix_millis F =? 1000) && (us mod 1000000 =? 0)
+  | ILevenshtein dist _ => lev_cfg_exact (f_lev F) || (lev_cfg_ok (f_lev F) && match dist with Some _ => true | None => false end)
+  | IUnixMillis us =>
+      (millis_cfg_exact (f_unix_millis F) && ((0 <=? us) || (us mod 1000 =? 0))) ||
+      (millis_cfg_ok (f_unix_millis F) && (us mod 1000000 =? 0))
   end.
 
 Open Scope string_scope.
